@@ -80,6 +80,7 @@ BAR_SHAPES = [
     [("R", 6)],
     [],
     [("N", 7), ("C", 8), ("N", 7)],
+    [("C", 1), ("N", 0), ("C", 7), ("R", 1), ("C", 0)],
 ]
 # value tables per shape slot: (value, base, dots, ratio)
 SLOT = [
